@@ -335,6 +335,9 @@ func (ms *Mesh) Deliver(p *Packet) Result {
 func (ms *Mesh) DeliverOn(p *Packet, to, via int) Result {
 	var res Result
 	n := ms.Nodes[to]
+	if n.Inst == nil {
+		return res // a stub swallows what it is sent
+	}
 	link := n.Links[via]
 	b := n.Inst.BuilderV
 	off := peering.FrameOffset
